@@ -188,11 +188,13 @@ theorem c20_judge_main (r : Reg) (hw : WellShaped r) (hc : Consistent r) (mr : M
 /-! ## Every history through the API
 
 `apiRun` plays any list of requests (creates, updates through either endpoint, deletes; accepted or rejected)
-from the empty state. The stored generation is always an `int64` ≥ 1, so the range hypothesis of
-`c20_main_update_generation` is discharged for every state a client can reach, and every accepted request of
-every history meets the judge. -/
+from the empty state — including DELETEs that keep a finalizer-holding object as terminating (k8s bumps its
+generation) and updates that remove it. The stored generation is always an `int64`, so the range hypothesis
+of `c20_main_update_generation` is discharged for every state a client can reach, whatever the rest of the
+metadata (finalizers, deletionTimestamp, owner references … all inside the opaque `otherMeta`) looks like, and
+every accepted request of every history meets the judge. -/
 
-def GenOk (st : Option (Obj L A M S T)) : Prop := ∀ o, st = some o → isI64 o.generation ∧ 1 ≤ o.generation
+def GenOk (st : Option (Obj L A M S T)) : Prop := ∀ o, st = some o → isI64 o.generation
 
 omit [DecidableEq S'] [DecidableEq A'] in
 theorem genOk_create (r : Reg) (mr : MetaRules L A M S T) (zero : T) (o : Obj L A M S T) :
@@ -205,6 +207,20 @@ theorem genOk_create (r : Reg) (mr : MetaRules L A M S T) (zero : T) (o : Obj L 
     subst h
     have := (c20_create_exact r mr zero o x hb).1
     rw [this]; unfold isI64 i64Lo i64Hi; omega
+
+omit [DecidableEq S'] [DecidableEq A'] in
+theorem genOk_delete (mr : MetaRules L A M S T) (cur : Obj L A M S T) (h : isI64 cur.generation) :
+    GenOk (apiDelete mr cur) := by
+  intro o ho
+  unfold apiDelete at ho
+  split at ho
+  · simp only [Option.some.injEq] at ho
+    subst ho
+    simp only
+    split
+    · exact toI64_isI64 _
+    · exact h
+  · cases ho
 
 theorem genOk_step (sem : Sem A S A' S') (r : Reg) (hw : WellShaped r) (mr : MetaRules L A M S T) (zero : T)
     (st : Option (Obj L A M S T)) (a : Api L A M S T) (h : GenOk st) : GenOk (apiStep sem r mr zero st a) := by
@@ -222,32 +238,29 @@ theorem genOk_step (sem : Sem A S A' S') (r : Reg) (hw : WellShaped r) (mr : Met
     have hcur := h cur rfl
     cases a with
     | create o => simpa [apiStep] using h
-    | delete => intro _ h'; simp [apiStep] at h'
+    | delete => simpa [apiStep] using genOk_delete mr cur hcur
     | update ep o =>
       simp only [apiStep]
       cases hb : beforeUpdate sem r ep mr o cur with
       | error e => simpa using h
       | ok o' =>
         intro x hx
-        simp only [Option.some.injEq] at hx
-        subst hx
-        cases ep with
-        | status =>
-          have := (c20_status_update sem r hw mr o cur o' hb).2.2.1
-          rw [this]; exact hcur
-        | main =>
-          obtain ⟨hiff, hkeep⟩ := c20_main_update_generation sem r hw mr o cur o' hcur.1 hb
-          by_cases hch : sem.spec o'.spec ≠ sem.spec cur.spec ∨ sem.annotations o'.annotations ≠ sem.annotations cur.annotations
-          · have hg := hiff.2 hch
+        simp only at hx
+        split at hx
+        · cases hx
+        · simp only [Option.some.injEq] at hx
+          subst hx
+          cases ep with
+          | status =>
+            have := (c20_status_update sem r hw mr o cur o' hb).2.2.1
+            rw [this]; exact hcur
+          | main =>
             obtain ⟨_, _, heq, _, _⟩ := beforeUpdate_ok hb
             obtain ⟨_, _, hgen⟩ := main_prepare_generation sem r hw o cur
-            have hrange : isI64 o'.generation := by
-              rw [heq]; simp only at hgen ⊢; rw [hgen]
-              split
-              · exact toI64_isI64 _
-              · exact hcur.1
-            exact ⟨hrange, by omega⟩
-          · rw [hkeep hch]; exact hcur
+            rw [heq]; simp only at hgen ⊢; rw [hgen]
+            split
+            · exact toI64_isI64 _
+            · exact hcur
 
 theorem genOk_run (sem : Sem A S A' S') (r : Reg) (hw : WellShaped r) (mr : MetaRules L A M S T) (zero : T)
     (st : Option (Obj L A M S T)) (as : List (Api L A M S T)) (h : GenOk st) :
@@ -264,9 +277,46 @@ theorem c20_history (r : Reg) (hw : WellShaped r) (hc : Consistent r) (mr : Meta
     (v : View L A S T L' A' S' T') (zero : T) (hist : List (Api L A M S T)) (cur sub o' : Obj L A M S T)
     (hreach : apiRun v.sem r mr zero none hist = some cur)
     (h : beforeUpdate v.sem r .main mr sub cur = .ok o') :
-    judgeMainUpdate r.served (v.obj cur) (v.obj o') = [] ∧ 1 ≤ cur.generation := by
+    judgeMainUpdate r.served (v.obj cur) (v.obj o') = [] := by
   have hok := genOk_run v.sem r hw mr zero none hist (fun _ h => by cases h) cur hreach
-  exact ⟨c20_judge_main r hw hc mr v sub cur o' hok.1 h, hok.2⟩
+  exact c20_judge_main r hw hc mr v sub cur o' hok h
+
+/-! ## The rest of the metadata is irrelevant
+
+All statements above already quantify over arbitrary `otherMeta` components and arbitrary `MetaRules` (which
+only decide WHETHER a request is accepted and what the new `otherMeta` is). Explicitly: what the strategies
+make of labels, annotations, generation, spec and status does not depend on the `otherMeta` of either object —
+finalizers, deletionTimestamp/GracePeriodSeconds of a terminating object, owner references, uid,
+resourceVersion, managed fields. -/
+
+def sameGroups (a b : Obj L A M S T) : Prop :=
+  a.labels = b.labels ∧ a.annotations = b.annotations ∧ a.generation = b.generation ∧ a.spec = b.spec ∧ a.status = b.status
+
+theorem c20_update_ignores_other_metadata (sem : Sem A S A' S') (r : Reg) (ep : Endpoint)
+    (obj old : Obj L A M S T) (m₁ m₂ : M) :
+    sameGroups (updatePrepare sem r ep { obj with otherMeta := m₁ } { old with otherMeta := m₂ })
+               (updatePrepare sem r ep obj old) := by
+  cases ep <;>
+    simp only [updatePrepare, prepareForUpdate, statusPrepareForUpdate, sameGroups] <;>
+    (repeat' split) <;> simp_all
+
+omit [DecidableEq S'] [DecidableEq A'] in
+theorem c20_create_ignores_other_metadata (subStatus : Bool) (sh : Shape) (zero : T) (obj : Obj L A M S T) (m : M) :
+    sameGroups (prepareForCreate subStatus sh zero { obj with otherMeta := m }) (prepareForCreate subStatus sh zero obj) := by
+  simp only [prepareForCreate, sameGroups]
+  (repeat' split) <;> simp_all
+
+/-- … and an accepted update's generation, spec, status, labels, annotations are those of the same update on
+    objects with ANY other `otherMeta` (whenever that one is accepted too). -/
+theorem c20_accepted_update_ignores_other_metadata (sem : Sem A S A' S') (r : Reg) (ep : Endpoint)
+    (mr mr' : MetaRules L A M S T) (obj old o₁ o₂ : Obj L A M S T) (m₁ m₂ : M)
+    (h₁ : beforeUpdate sem r ep mr obj old = .ok o₁)
+    (h₂ : beforeUpdate sem r ep mr' { obj with otherMeta := m₁ } { old with otherMeta := m₂ } = .ok o₂) :
+    sameGroups o₂ o₁ := by
+  obtain ⟨_, _, rfl, _, _⟩ := beforeUpdate_ok h₁
+  obtain ⟨_, _, rfl, _, _⟩ := beforeUpdate_ok h₂
+  have := c20_update_ignores_other_metadata sem r ep { obj with generation := old.generation } old m₁ m₂
+  simpa [sameGroups] using this
 
 end
 
@@ -292,7 +342,8 @@ Annotations `none` = absent, `some []` = spelled out as `{}`; both render as "no
 
 def witnessReg : Reg := { shape := ⟨true, true, true⟩, subStatus := true, optSubStatus := true }
 def witnessRules : MetaRules Unit (Option (List Nat)) Unit Nat Nat :=
-  { fixCreate := id, fixUpdate := fun n _ => n, validCreate := fun _ => true, validUpdate := fun _ _ => true }
+  { fixCreate := id, fixUpdate := fun n _ => n, validCreate := fun _ => true, validUpdate := fun _ _ => true,
+    deleteKeeps := fun _ => true, deleteBumps := fun _ => true, markDeleting := id, deletedByUpdate := fun _ _ => false }
 def witnessSem : Sem (Option (List Nat)) Nat (List Nat) Nat := { annotations := fun a => a.getD [], spec := id }
 def witnessView : View Unit (Option (List Nat)) Nat Nat Unit (List Nat) Nat Nat :=
   { labels := id, status := id, sem := witnessSem }
@@ -316,10 +367,11 @@ example : beforeCreate witnessReg witnessRules 0 { witnessStored with generation
 /-- at generation MaxInt64 a change is REJECTED (the wrapped value fails "must not be decremented") -/
 example : beforeUpdate witnessSem witnessReg .main witnessRules { witnessStored with spec := 8 }
     { witnessStored with generation := 9223372036854775807 } = .error .invalid := by decide
-/-- a reachable state of `c20_history` -/
+/-- a reachable state of `c20_history`: create (1), spec change (2), status update (2), DELETE kept by a
+    finalizer (k8s bumps: 3), spec change on the terminating object (4) -/
 example : apiRun witnessSem witnessReg witnessRules 0 none [.create witnessStored, .update .main { witnessStored with spec := 8 },
-    .update .status { witnessStored with status := 9 }] =
-    some { witnessStored with spec := 8, status := 9, generation := 2 } := by decide
+    .update .status { witnessStored with status := 9 }, .delete, .update .main { witnessStored with spec := 10 }] =
+    some { witnessStored with spec := 10, status := 9, generation := 4 } := by decide
 /-- the judge is not trivially empty: it rejects the second defect's behaviour (5 → 6 on `{}`) … -/
 example : judgeMainUpdate true (witnessView.obj witnessStored)
     (witnessView.obj { witnessStored with annotations := some [], generation := 6 }) = [.mainKeep] := by decide
